@@ -383,16 +383,8 @@ def run(repo: Repo, ctx) -> None:
         raise AnalysisError('C18.R3: dollar_quote_literal shape changed')
     t = norm(loops[0].test)
     text = dq.params()[0]
-    if t == f'quote in {text}':
-        ok, why = False, ('the marker search only looks inside the text; an '
-                          'occurrence straddling the end of the text (text '
-                          'ending in "$") closes the literal early')
-    elif t in (f'({text} + quote).find(quote) != len({text})',
-               f'({text} + quote).index(quote) != len({text})',
-               f'quote in {text} + quote[:-1]',
-               f'quote in ({text} + quote)[:-1]'):
-        ok, why = True, ''
-    else:
+    ok, why = _marker_search_ok(dq, loops[0].test, text)
+    if ok is None:
         raise AnalysisError(f'C18.R3: unrecognised marker search `{t}` in '
                             f'dollar_quote_literal: cannot decide')
     ctx.ob('C18.R3', 'dollar_quote_literal:marker-search', ok, why, dq.loc,
@@ -421,14 +413,31 @@ def run(repo: Repo, ctx) -> None:
            bq.loc, sample="'\\x<hex>'::bytea")
     # identifier quoting decisions
     nq = repo.func(f'{QUOTE}.needs_quoting')
-    txt = norm(nq.node)
-    ok = 'keywords.by_type[keywords.RESERVED_KEYWORD]' in txt and \
-        'fullmatch(string)' in txt and \
-        'not isalnum or (not allow_reserved and is_reserved)' in txt
-    ctx.ob('C18.R3', 'edgeql.quote.needs_quoting:decision', ok,
-           'EdgeQL identifiers are not quoted when they are not plain '
-           'identifiers or are reserved keywords', nq.loc,
-           sample='not isalnum or (not allow_reserved and is_reserved)')
+    sparam = nq.params()[0]
+    lows = _lowercased_names(nq, sparam)
+    mem = [n for n in ast.walk(nq.node) if isinstance(n, ast.Compare)
+           and len(n.ops) == 1 and isinstance(n.ops[0], ast.In)
+           and 'keywords.by_type[keywords.RESERVED_KEYWORD]'
+           in norm(n.comparators[0])]
+    ok = bool(mem) and all(_is_lowercased(n.left, lows) for n in mem)
+    ctx.ob('C18.R3', 'edgeql.quote.needs_quoting:reserved-lookup-lowercased',
+           ok, 'the reserved-keyword lookup is not applied to the '
+           'lower-cased identifier: the lexer matches keywords '
+           'case-insensitively, so `Select` / `ALTER` would be emitted bare '
+           'and read back as keywords', nq.loc,
+           sample=[norm(n)[:70] for n in mem][:1])
+    fm = [n for n in ast.walk(nq.node) if isinstance(n, ast.Call)
+          and isinstance(n.func, ast.Attribute)
+          and n.func.attr == 'fullmatch' and n.args
+          and norm(n.args[0]) == sparam]
+    ctx.ob('C18.R3', 'edgeql.quote.needs_quoting:identifier-shape', bool(fm),
+           'needs_quoting no longer tests the whole string against the '
+           'identifier pattern', nq.loc, sample='<ident regex>.fullmatch')
+    ok = any('allow_reserved' in norm(n) for n in ast.walk(nq.node)
+             if isinstance(n, (ast.BoolOp, ast.If, ast.UnaryOp)))
+    ctx.ob('C18.R3', 'edgeql.quote.needs_quoting:reserved-unless-allowed',
+           ok and bool(mem), 'reserved keywords are no longer quoted',
+           nq.loc, sample='not allow_reserved and is_reserved')
     kwm = repo.module('edb.edgeql.parser.grammar.keywords')
     src_ok = 'ql_parser.current_reserved_keywords' in norm(kwm.tree) and \
         kwm.imports.get('ql_parser') == 'edb._edgeql_parser'
@@ -443,17 +452,47 @@ def run(repo: Repo, ctx) -> None:
            'quote_ident does not quote when needs_quoting says so', qi.loc,
            sample='force or needs_quoting -> _quote_ident')
     pnq = repo.func(f'{PGC}.needs_quoting')
+    sparam = pnq.params()[0]
     txt = norm(pnq.node)
-    classes = [k for k in ('RESERVED_KEYWORD', 'TYPE_FUNC_NAME_KEYWORD',
-                           'COL_NAME_KEYWORD') if
-               f'pg_keywords.by_type[pg_keywords.{k}]' in txt]
-    ok = len(classes) == 3 and 'string.lower() != string' in txt and \
-        'not isalnum' in txt and 'string[0].isdecimal()' in txt
-    ctx.ob('C18.R3', 'pgsql.common.needs_quoting:decision', ok,
-           f'SQL identifier quoting no longer consults all keyword classes '
-           f'({classes}) / forces quoting of non-lowercase and '
-           f'non-alphanumeric names', pnq.loc,
-           sample='not isalnum or keyword classes or not lowercase')
+    lows = _lowercased_names(pnq, sparam)
+    classes = []
+    for k in ('RESERVED_KEYWORD', 'TYPE_FUNC_NAME_KEYWORD',
+              'COL_NAME_KEYWORD'):
+        mem = [n for n in ast.walk(pnq.node) if isinstance(n, ast.Compare)
+               and len(n.ops) == 1 and isinstance(n.ops[0], ast.In)
+               and f'pg_keywords.by_type[pg_keywords.{k}]'
+               in norm(n.comparators[0])]
+        if mem and all(_is_lowercased(n.left, lows) for n in mem):
+            classes.append(k)
+    ctx.ob('C18.R3', 'pgsql.common.needs_quoting:keyword-classes',
+           len(classes) == 3,
+           f'SQL identifier quoting consults only keyword classes '
+           f'{classes} on the lower-cased name (reserved, type/function '
+           f'name and - for columns - column-name keywords are all needed)',
+           pnq.loc, sample=classes)
+    ok = any(isinstance(n, ast.Compare) and isinstance(n.ops[0], ast.NotEq)
+             and {norm(n.left), norm(n.comparators[0])} ==
+             {sparam, f'{sparam}.lower()'} for n in ast.walk(pnq.node))
+    ctx.ob('C18.R3', 'pgsql.common.needs_quoting:case-folding', ok,
+           'names that are not all lower-case are no longer quoted '
+           '(PostgreSQL folds unquoted identifiers to lower case)', pnq.loc,
+           sample='string.lower() != string')
+    lead = [n for n in ast.walk(pnq.node) if isinstance(n, ast.Call)
+            and isinstance(n.func, ast.Attribute)
+            and n.func.attr in ('isdecimal', 'isdigit', 'isnumeric')
+            and isinstance(n.func.value, ast.Subscript)
+            and norm(n.func.value.value) == sparam
+            and norm(n.func.value.slice) in ('0', ':1')]
+    ctx.ob('C18.R3', 'pgsql.common.needs_quoting:leading-digit', bool(lead),
+           'a name starting with a digit is no longer forced into quotes '
+           '(unquoted, PostgreSQL reads a number followed by an identifier)',
+           pnq.loc, sample='string[0].isdecimal()')
+    ok = any(isinstance(n, ast.Call) and isinstance(n.func, ast.Attribute)
+             and n.func.attr == 'isalnum' for n in ast.walk(pnq.node))
+    ctx.ob('C18.R3', 'pgsql.common.needs_quoting:alnum-only', ok,
+           'names with characters other than letters, digits and '
+           'underscore are no longer forced into quotes', pnq.loc,
+           sample="string.replace('_', 'a').isalnum()")
     pqi = repo.func(f'{PGC}.quote_ident')
     ok = '_quote_ident(ident) if needs_quoting(ident, column=column) or ' \
          'force else ident' in norm(pqi.node)
@@ -499,3 +538,84 @@ def run(repo: Repo, ctx) -> None:
                  for c in ast.walk(f.node))
         ctx.ob('C18.R4', f'edgeql.codegen.{fname}', ok,
                f'{fname} does not quote through {want}', f.loc, sample=want)
+
+
+def _marker_search_ok(fn, test, text):
+    """Decide the loop test of dollar_quote_literal structurally.
+
+    The literal is `quote + text + quote`; the lexer closes it at the first
+    occurrence of `quote` after the opening one, so the loop must keep
+    looking for a new marker while `quote` occurs in `text + quote` before
+    position len(text) - i.e. in `text + quote[:-1]`.  Returns
+    (True, ''), (False, why) or (None, '') when the form is not understood.
+    """
+    t = norm(test)
+    good = {f'({text} + quote).find(quote) != len({text})',
+            f'({text} + quote).index(quote) != len({text})',
+            f'quote in {text} + quote[:-1]',
+            f'quote in ({text} + quote)[:-1]'}
+    if t in good:
+        return True, ''
+    # `quote in <haystack>`: classify the haystack
+    if isinstance(test, ast.Compare) and len(test.ops) == 1 and isinstance(
+            test.ops[0], ast.In) and norm(test.left) == 'quote':
+        hay = test.comparators[0]
+        forms = _resolve_forms(fn, hay, 0)
+        covers = []
+        for f_ in forms:
+            n = norm(f_)
+            if n in (f'{text} + quote[:-1]', f'({text} + quote)[:-1]',
+                     f'{text} + quote'):
+                covers.append(True)
+            elif n == text or (isinstance(f_, ast.BinOp) and isinstance(
+                    f_.op, ast.Add) and norm(f_.left) == text
+                    and isinstance(f_.right, ast.Constant)):
+                covers.append(False)
+            else:
+                return None, ''
+        if covers and all(covers):
+            return True, ''
+        return False, (
+            f'the marker search looks for the marker in `{norm(hay)}` '
+            f'(= {[norm(x) for x in forms]}): an occurrence that straddles '
+            f'the end of the text (text ending in a prefix of the marker, '
+            f'e.g. "...$a" with marker "$a$") closes the literal early')
+    return None, ''
+
+
+def _resolve_forms(fn, e, depth):
+    """Possible defining expressions of a haystack expression (follows
+    local names and conditional expressions)."""
+    if depth > 3:
+        return [e]
+    if isinstance(e, ast.IfExp):
+        return _resolve_forms(fn, e.body, depth + 1) + \
+            _resolve_forms(fn, e.orelse, depth + 1)
+    if isinstance(e, ast.Name) and e.id not in fn.params():
+        defs = [n.value for n in walk_no_nested(fn.node)
+                if isinstance(n, ast.Assign)
+                and any(norm(t) == e.id for t in n.targets)]
+        out = []
+        for d in defs:
+            out += _resolve_forms(fn, d, depth + 1)
+        return out or [e]
+    return [e]
+
+
+def _lowercased_names(fn, param):
+    """Local names that hold `<param>.lower()` (incl. the parameter itself
+    when it is rebound to its own lower-case form before use)."""
+    out = set()
+    for n in walk_no_nested(fn.node):
+        if isinstance(n, ast.Assign) and norm(n.value) in (
+                f'{param}.lower()', f'{param}.casefold()'):
+            for t in n.targets:
+                out.add(norm(t))
+    return out
+
+
+def _is_lowercased(e, lows) -> bool:
+    n = norm(e)
+    if n.endswith('.lower()') or n.endswith('.casefold()'):
+        return True
+    return n in lows
